@@ -15,7 +15,7 @@ EXPLANATION = ("(1) TryFrom<Headers> for SessionRequest: Ok is reached only unde
                "the value to 100..=599 (interval derived from the path's comparisons); response parsing goes through that constructor; "
                "is_successful is [200,300); (3) RESERVED_HEADERS is exactly the five names and insert() writes only when not reserved; "
                "(4) SessionRequest::new derives scheme guard/authority/path+query (string algebra); (5) server refusal codes and client response handling tables; "
-               "(6) the reserved-name guard and the map see the same string: Headers::insert / get are the identity on names and values.")
+               "(6) the reserved-name guard and the map see the same string: Headers::insert / get are the identity on names and values. C18-R7: SessionResponse::ok / forbidden / not_found / too_many_requests carry 200 / 403 / 404 / 429 through with_status_code into the ':status' field, SessionResponse::code parses that same field, StatusCode::into_inner / try_from_u32 pass the number unchanged.")
 NOT_DECIDED = ["the url crate's parsing", "arbitrary header maps at run time"]
 TRUSTED = ["rustc MIR", "std str::parse::<u16>, Range::contains", "url::Url accessors"]
 
@@ -146,3 +146,16 @@ def run(ctx):
     ctx.rule("C18-R5", "server refusal codes (stream-level) and client handling of the response status")
     shared.handle_bi_table(ctx, "C18-R5")
     shared.connect_response_table(ctx, "C18-R5")
+
+    ctx.rule("C18-R7", "status plumbing: the code the client judges is the parsed :status, the refusals carry the documented codes")
+    table = {
+        r"^wtransport_proto::ids::StatusCode::into_inner$": (r"^return self\.0$", []),
+        r"^wtransport_proto::ids::StatusCode::try_from_u32$": (r"^return <T as TryInto<U>>::try_into\(value\)$", []),
+        r"^wtransport_proto::session::SessionResponse::ok$": (r"^return SessionResponse::with_status_code\(StatusCode::OK=200\)$", []),
+        r"^wtransport_proto::session::SessionResponse::forbidden$": (r"^return SessionResponse::with_status_code\(StatusCode::FORBIDDEN=403\)$", []),
+        r"^wtransport_proto::session::SessionResponse::not_found$": (r"^return SessionResponse::with_status_code\(StatusCode::NOT_FOUND=404\)$", []),
+        r"^wtransport_proto::session::SessionResponse::too_many_requests$": (r"^return SessionResponse::with_status_code\(StatusCode::TOO_MANY_REQUESTS=429\)$", []),
+        r"^wtransport_proto::session::SessionResponse::with_status_code$": (r"^return SessionResponse\(Iterator::collect\(<impl IntoIterator for \[T; N\]>::into_iter\(\[\(':status',<T as ToString>::to_string\(status_code\)\)\]\)\)\)$", []),
+        r"^wtransport_proto::session::SessionResponse::code$": (r"^return Result::expect\(<impl str>::parse\(Option::expect\(Headers::get\(self\.0,':status'\),'[^']*'\)\),'[^']*'\)$", []),
+    }
+    shared.forwarders(ctx, "C18-R7", table, "status plumbing")
